@@ -16,6 +16,7 @@ pub mod zone;
 pub mod tzdb;
 pub mod c19;
 pub mod c11;
+pub mod c12;
 pub mod c20;
 
 pub fn generate(suite: &str, tier: &str, seed: u64) -> Vec<String> {
@@ -38,6 +39,7 @@ pub fn generate(suite: &str, tier: &str, seed: u64) -> Vec<String> {
         "c15" => tzdb::generate(&mut rng, thorough),
         "c19" => c19::generate(&mut rng, thorough),
         "c11" => c11::generate(&mut rng, thorough),
+        "c12" => c12::generate(&mut rng, thorough),
         "c20" => c20::generate(&mut rng, thorough),
         "c14" => zone::generate_c14(&mut rng, thorough),
         _ => panic!("unknown suite {suite}"),
@@ -82,6 +84,11 @@ pub fn eval_more(t: &[&str]) -> String {
     }
     if let Some(s) = c20::eval(t) {
         return s;
+    }
+    if t[0].starts_with("p_") {
+        if let Some(s) = c12::eval(t) {
+            return s;
+        }
     }
     if t[0].starts_with("f_") || t[0].starts_with("rt_") {
         if let Some(s) = c11::eval(t) {
